@@ -2283,8 +2283,13 @@ def _pack_layout(layout):
     elif isinstance(layout, ak.layout.BitMaskedArray):
         layout = layout.simplify()
 
+        # simplifying may have turned it into another kind of node
+        if not isinstance(layout, ak.layout.BitMaskedArray):
+            return _pack_layout(layout)
+
+        # the content still holds what the mask hides: project it away
         if not isinstance(ak.type(layout.content), ak.types.PrimitiveType):
-            return layout.toIndexedOptionArray64()
+            return _pack_layout(layout.toIndexedOptionArray64())
 
         return ak.layout.BitMaskedArray(
             layout.mask,
@@ -2300,8 +2305,13 @@ def _pack_layout(layout):
     elif isinstance(layout, ak.layout.ByteMaskedArray):
         layout = layout.simplify()
 
+        # simplifying may have turned it into another kind of node
+        if not isinstance(layout, ak.layout.ByteMaskedArray):
+            return _pack_layout(layout)
+
+        # the content still holds what the mask hides: project it away
         if not isinstance(ak.type(layout.content), ak.types.PrimitiveType):
-            return layout.toIndexedOptionArray64()
+            return _pack_layout(layout.toIndexedOptionArray64())
 
         return ak.layout.ByteMaskedArray(
             layout.mask,
